@@ -4,24 +4,38 @@ import StepModel.PyAggSpec
 namespace StepModel.PyAgg
 open StepModel.Spec.Aggregate
 
-/-! ### `check_type` decides type equality (for the regenerated comparison mode) -/
+/-! ### python's value equality is an equivalence -/
+
+theorem veq_refl (x : Val) : veq x x = true := by simp [veq]
+theorem veq_symm {x y : Val} (h : veq x y = true) : veq y x = true := by simp only [veq, beq_iff_eq] at h ⊢; exact h.symm
+theorem veq_trans {x y z : Val} (h1 : veq x y = true) (h2 : veq y z = true) : veq x z = true := by
+  simp only [veq, beq_iff_eq] at h1 h2 ⊢; exact h1.trans h2
+
+/-! ### `check_type` decides conformance to the declared type (for the regenerated comparison mode) -/
 
 open StepModel.Generated in
-theorem checkType_iff (x : Val) (e : Ty) : checkType x e = true ↔ x.ty = e := by
+theorem checkType_iff (x : Val) (e : Ty) : checkType x e = true ↔ conforms x.ty e = true := by
   unfold checkType checkTypeWith
   cases e with
-  | simple t => cases hx : x.ty <;> simp
+  | simple t => rfl
   | agg k b =>
     cases hx : x.ty with
-    | simple t => simp
+    | simple t => simp [conforms]
     | agg k' b' =>
       by_cases hk : k' = k
-      · simp [hk, baseTypesMatch, elementBaseCmp]
-      · simp [hk]
+      · simp [hk, baseTypesMatch, elementBaseCmp, conforms]
+      · simp [hk, conforms]
 
 open StepModel.Generated in
-theorem typeMismatch_iff (x : Val) (e : Ty) : typeMismatch x e ↔ x.ty ≠ e := by
+theorem typeMismatch_iff (x : Val) (e : Ty) : typeMismatch x e ↔ ¬ (conforms x.ty e = true) := by
   unfold typeMismatch; rw [checkType_iff]
+
+/-- for every base type but NUMBER conformance is equality of types -/
+theorem conforms_eq_iff (t b : Ty) (hb : b ≠ .simple 5) : conforms t b = true ↔ t = b := by
+  unfold conforms
+  split
+  · exact absurd rfl hb
+  · simp
 
 /-! ### Python list primitives on in-range arguments -/
 
@@ -197,6 +211,30 @@ theorem nodup_sortL (l : List Val) : (sortL l).Nodup ↔ l.Nodup := by
   induction l with
   | nil => simp [sortL]
   | cons x xs ih => simp [sortL, nodup_insertSorted, mem_sortL, ih]
+
+theorem insertSorted_perm (x : Val) (l : List Val) : (insertSorted x l).Perm (x :: l) := by
+  induction l with
+  | nil => exact List.Perm.refl _
+  | cons h t ih =>
+    simp only [insertSorted]; split
+    · exact List.Perm.refl _
+    · exact (List.Perm.cons h ih).trans (List.Perm.swap x h t)
+
+theorem sortL_perm (l : List Val) : (sortL l).Perm l := by
+  induction l with
+  | nil => exact List.Perm.refl _
+  | cons x xs ih => exact (insertSorted_perm x _).trans (List.Perm.cons x ih)
+
+/-- membership and duplicate-freeness *by python equality* do not depend on the order -/
+theorem keyMem_sortL (k : Key) (l : List Val) : k ∈ (sortL l).map Val.key ↔ k ∈ l.map Val.key :=
+  ((sortL_perm l).map Val.key).mem_iff
+
+theorem keyNodup_sortL (l : List Val) : ((sortL l).map Val.key).Nodup ↔ (l.map Val.key).Nodup :=
+  ((sortL_perm l).map Val.key).nodup_iff
+
+theorem pySlice_map {α β} (f : α → β) (l : List α) (p : Int) :
+    pySliceTo (l.map f) p = (pySliceTo l p).map f ∧ pySliceFrom (l.map f) p = (pySliceFrom l p).map f := by
+  simp [pySliceTo, pySliceFrom, List.map_take, List.map_drop]
 
 /-! ### index ranges -/
 
